@@ -13,10 +13,10 @@ PROPERTY = 'C12'
 RULE = (
     'the real Reactor/Peer on a virtual clock; negotiated hold time H from (our hold-time, peer OPEN hold time) over {0,3,4,9,30,90,65535}; '
     'remote behaviour after establishment = drawn sequence of (gap, KEEPALIVE | UPDATE | nothing) with gaps around H and H/3, bursts and long silences; '
-    'OPEN withheld for openwait +- 2 s. Oracle over virtual timestamps on the transport. Non-trivial = some gap within +-3 s of H or H/3, or H = 0, or the OPEN is withheld'
+    'OPEN withheld for openwait +- 2 s; write-stall: one outbound UPDATE write blocks for 1-3 H of virtual time while the remote keeps sending every H/3..H-1.5 s (the session must survive, then expire H after the remote falls silent). Oracle over virtual timestamps on the transport. Non-trivial = some gap within +-3 s of H or H/3, or H = 0, or the OPEN is withheld'
 )
 ASSUMPTIONS = [
-    'time only advances through the virtual clock: starvation of the timers by CPU-bound work (a long outbound batch) cannot be observed here',
+    'time only advances through the virtual clock: starvation of the timers by CPU-bound work cannot be observed here; a blocked outbound write is simulated by a virtual-time wait inside Connection.writer_async',
     'granularity g = 2 s covers the documented int(time.time()) arithmetic and the 0.1 s polling of the peer loop',
     'the transport is a socketpair; the remote speaker is scripted by the harness',
 ]
@@ -31,7 +31,9 @@ def cases(draw):
     ours = draw(st.sampled_from(HOLDS_OURS))
     peer = draw(st.sampled_from(HOLDS_PEER))
     h = min(ours, peer)
-    mode = draw(st.sampled_from(['established'] * 6 + ['open-withheld']))
+    mode = draw(st.sampled_from(['established', 'established', 'established', 'open-withheld', 'write-stall']))
+    if mode == 'write-stall' and h == 0:
+        mode = 'established'
     openwait = draw(st.sampled_from([3, 5, 10]))
     steps = []
     if mode == 'established':
@@ -48,13 +50,22 @@ def cases(draw):
             )
             steps.append([round(gap, 2), kind])
         tail = draw(st.sampled_from(['silence', 'silence', 'stay']))
+    elif mode == 'write-stall':
+        # one outbound UPDATE write blocks for longer than H (the remote's window is closed) while the remote keeps sending
+        tail = 'silence'
+        stall = draw(st.sampled_from([h + 1.0, round(h * 1.3, 1), h * 2.0, h * 3.0]))
+        period = draw(st.sampled_from([h / 3.0, h / 2.0, max(0.5, h - 1.5)]))
+        return {'ours': ours, 'peer': peer, 'mode': mode, 'openwait': openwait, 'delay_open': 1.0, 'steps': [], 'tail': tail, 'stall': stall, 'period': round(period, 2)}
     else:
         tail = 'silence'
     return {'ours': ours, 'peer': peer, 'mode': mode, 'openwait': openwait, 'delay_open': draw(st.sampled_from([-2.0, -1.0, 1.0, 2.0, 30.0])), 'steps': steps, 'tail': tail}
 
 
 def config(case: dict) -> str:
-    return exa.neighbor_text(families=['ipv4 unicast'], hold=case['ours'], capability={'asn4': 'enable', 'route-refresh': 'enable'})
+    body = ''
+    if case['mode'] == 'write-stall':
+        body = '\n  static {\n    route 60.0.0.0/24 next-hop 1.2.3.4;\n    route 60.0.1.0/24 next-hop 1.2.3.4 med 5;\n  }'
+    return exa.neighbor_text(families=['ipv4 unicast'], hold=case['ours'], capability={'asn4': 'enable', 'route-refresh': 'enable'}, body=body)
 
 
 def check(case: dict) -> dict:
@@ -80,6 +91,8 @@ def check(case: dict) -> dict:
                     await hn.sleep(1.0)
                 events['withheld'] = {'t0': t0, 'closed_at': r.closed_at, 'notifications': [(t, codec.decode_notification(b)[:2]) for t, _, b in r.of_type(3)], 'sent_open_at': r.sent[0][0] if r.sent else None}
                 return
+            if case['mode'] == 'write-stall':
+                hn.write_stall = float(case['stall'])
             ok = await nh.establish(r, open_body)
             if not ok:
                 raise RuntimeError(f'session did not establish: {[(t, ty) for t, ty, _ in r.messages]} closed={r.closed_at}')
@@ -97,6 +110,15 @@ def check(case: dict) -> dict:
                     for _ in range(5):
                         await r.send_msg(codec.KEEPALIVE)
                 arrivals.append(loop.time())
+            if case['mode'] == 'write-stall':
+                # the remote is never silent for H while the write is blocked, and for a while after it went through
+                until = t_est + float(case['stall']) + 2 * h
+                while loop.time() < until and r.closed_at is None:
+                    await hn.sleep(case['period'])
+                    if r.closed_at is not None:
+                        break
+                    await r.send_msg(codec.KEEPALIVE)
+                    arrivals.append(loop.time())
             horizon = (h + G + 3) if h else 40.0
             if case['tail'] == 'stay' and h:
                 # keep the session alive for two more periods, then fall silent
@@ -113,6 +135,7 @@ def check(case: dict) -> dict:
                 'closed_at': r.closed_at,
                 'end': loop.time(),
                 'messages': [(t, ty, body) for t, ty, body in r.messages],
+                'stalls': list(hn.stalls),
             }
 
     vloop.run(main)
@@ -192,7 +215,10 @@ def check(case: dict) -> dict:
         end = min(end, t40s[0])
     marks = [ev['t_est']] + [t for t in keepalives if t <= end] + [end]
     limit = h / 3.0 + G
+    stalls = ev.get('stalls', [])
     for a, b in zip(marks, marks[1:]):
+        if any(a <= t0 + d + G and b >= t0 for t0, d in stalls):
+            continue  # exabgp could not write during the blocked write: its own KEEPALIVEs are late by construction
         if b - a > limit:
             raise Violation('keepalive:gap-too-long', f'{b - a:.2f}s without a KEEPALIVE from exabgp, H={h} (limit H/3+g={limit:.2f})')
     near = [g for g, _ in case['steps'] if abs(g - h) <= 3 or abs(g - h / 3.0) <= 3]
@@ -201,6 +227,11 @@ def check(case: dict) -> dict:
         classes.append('hold-expired')
     if case['tail'] == 'stay':
         classes.append('kept-alive')
+    if case['mode'] == 'write-stall':
+        if not stalls:
+            return {'nontrivial': False, 'classes': classes + ['write-stall:no-update-written']}
+        classes.append('write-blocked-longer-than-H')
+        nontrivial = True
     if any(k == 'update' for _, k in case['steps']):
         classes.append('update-as-liveness')
     return {'nontrivial': nontrivial, 'classes': classes}
